@@ -1,5 +1,6 @@
 import Gonnx.Gate
 import Gonnx.Generated.Registry
+import Gonnx.Spec.Arity
 /-
 C15 — every operator's input gate enforces arity and element types before computing.
 
@@ -130,6 +131,18 @@ theorem registry_wf : ∀ d ∈ Generated.registry, d.name ≠ "Concat" → WFde
 
 /-- the reflected Concat descriptors for input counts 0…8 are the modelled ones -/
 theorem concat_rows_eq : Generated.concatRows = (List.range 9).map concatDesc := by
+  decide
+
+/-- **Obligation over the regenerated table:** every registered operator declares exactly the ONNX
+opset-13 arity (minimum = required inputs, maximum = all inputs of the schema) written down in
+`Spec/Arity.lean` - so "shorter than the operator's minimum / longer than its maximum" in
+`gate_registry` means shorter / longer than ONNX allows, and a required input can never reach Apply absent -/
+theorem registry_arity_onnx :
+    ∀ d ∈ Generated.registry, d.name ≠ "Concat" → Spec.arityOf d.name = some (d.min, d.max) := by
+  decide
+
+/-- every operator of the table is registered -/
+theorem arity_table_registered : ∀ e ∈ Spec.onnxArity, e.1 ∈ Generated.registry.map (·.name) := by
   decide
 
 /-- registered names are pairwise distinct, so `lookup` finds *the* operator of that name -/
